@@ -52,6 +52,7 @@ struct Shared {
   q120_ntt_precomp* qntt;
   q120_mat1col_product_bbb_precomp* qbbb;
   q120_mat1col_product_baa_precomp* qbaa;
+  double* shared_dft;  // one DFT vector of 2*T limbs: thread t owns limbs 2t, 2t+1
   q120_mat1col_product_bbc_precomp* qbbc;
   REIM4_FROM_CPLX_PRECOMP* r4fc;
 };
@@ -82,6 +83,7 @@ static void xfree(void* p) {
 }
 #define free(p) xfree(p)
 
+static thread_local int g_tid = 0;
 static std::vector<uint8_t> run_call(int kind, uint64_t dseed) {
   Rng r(dseed);
   const uint64_t n = S.n, m = S.m;
@@ -108,7 +110,21 @@ static std::vector<uint8_t> run_call(int kind, uint64_t dseed) {
       vec_znx_idft(S.fft64, (VEC_ZNX_BIG*)g, 2, (VEC_ZNX_DFT*)d, 2, nullptr);
       grab(g, 2 * n * 8); free(a); free(d); free(g); break;
     }
-    case K_SVP_APPLY: { int64_t* a = ints(2 * n, sb); double* d = (double*)xalloc(2 * n * 8); svp_apply_dft(S.fft64, (VEC_ZNX_DFT*)d, 2, S.ppol, a, 2, n); grab(d, 2 * n * 8); free(a); free(d); break; }
+    case K_SVP_APPLY: {
+      int64_t* a = ints(2 * n, sb);
+      if ((dseed >> 5) & 1) {
+        // column-wise parallelisation of one product: this thread's two output limbs are a slice of ONE shared DFT vector, directly
+        // adjacent to the slices the other threads write -- disjoint data, no gap
+        double* d = S.shared_dft + (size_t)g_tid * 2 * n;
+        svp_apply_dft(S.fft64, (VEC_ZNX_DFT*)d, 2, S.ppol, a, 2, n);
+        grab(d, 2 * n * 8);
+      } else {
+        double* d = (double*)xalloc(2 * n * 8);
+        svp_apply_dft(S.fft64, (VEC_ZNX_DFT*)d, 2, S.ppol, a, 2, n);
+        grab(d, 2 * n * 8); free(d);
+      }
+      free(a); break;
+    }
     case K_VMP_APPLY: {
       int64_t* a = ints(2 * n, sb); double* d = (double*)xalloc(3 * n * 8);
       uint8_t* t = (uint8_t*)xalloc(vmp_apply_dft_tmp_bytes(S.fft64, 3, 2, S.nrows, S.ncols));
@@ -128,11 +144,18 @@ static std::vector<uint8_t> run_call(int kind, uint64_t dseed) {
       vec_znx_idft(S.ntt120, (VEC_ZNX_BIG*)g, 2, (VEC_ZNX_DFT*)d, 2, t);
       grab(g, 2 * n * 16); free(a); free(d); free(g); free(t); break;
     }
-    case K_REIM_FFT: case K_REIM_IFFT: case K_CPLX_FFT: case K_S_REIM_FFT: case K_S_CPLX_FFT: case K_S_REIM_IFFT: {
+    case K_REIM_FFT: case K_REIM_IFFT: case K_CPLX_FFT: {
       double* x = dbls(2 * m);
-      if (kind == K_REIM_FFT) reim_fft(S.rfft, x); else if (kind == K_REIM_IFFT) reim_ifft(S.rifft, x); else if (kind == K_CPLX_FFT) cplx_fft(S.cfft, x);
-      else if (kind == K_S_REIM_FFT) reim_fft_simple(m, x); else if (kind == K_S_REIM_IFFT) reim_ifft_simple(m, x); else cplx_fft_simple(m, x);
+      if (kind == K_REIM_FFT) reim_fft(S.rfft, x); else if (kind == K_REIM_IFFT) reim_ifft(S.rifft, x); else cplx_fft(S.cfft, x);
       grab(x, 2 * m * 8); free(x); break;
+    }
+    case K_S_REIM_FFT: case K_S_CPLX_FFT: case K_S_REIM_IFFT: {
+      // the cached front ends with TWO dimensions in flight at once (m and 2m, both warmed up beforehand in the warm mode: "one dry-run
+      // call per desired dimension"): a cache slot shared between dimensions is then used concurrently
+      const uint64_t mm = ((dseed >> 9) & 1) && m < 32768 ? 2 * m : m;
+      double* x = dbls(2 * mm);
+      if (kind == K_S_REIM_FFT) reim_fft_simple(mm, x); else if (kind == K_S_REIM_IFFT) reim_ifft_simple(mm, x); else cplx_fft_simple(mm, x);
+      grab(x, 2 * mm * 8); free(x); break;
     }
     case K_REIM_MUL: case K_REIM_ADDMUL: case K_S_REIM_MUL: case K_S_R4_MUL: case K_S_CPLX_MUL: {
       const uint64_t mq = (kind == K_S_R4_MUL && m < 4) ? 4 : m;  // reim4 layout needs m >= 4
@@ -215,10 +238,12 @@ static std::vector<uint8_t> run_call(int kind, uint64_t dseed) {
 struct ThreadArg {
   std::vector<Call>* calls;
   pthread_barrier_t* bar;
+  int tid;
 };
 static std::atomic<int> g_csr_changed{-1};  // index of the first call kind that left the thread's FP control state changed
 static void* thread_main(void* p) {
   ThreadArg* a = (ThreadArg*)p;
+  g_tid = a->tid;
   pthread_barrier_wait(a->bar);
   for (auto& c : *a->calls) {
     // per-thread hidden state: the floating-point control bits (rounding mode, FTZ, DAZ, exception masks) are inherited by threads
@@ -248,7 +273,8 @@ int main(int argc, char** argv) {
   // the thread program is generated BEFORE any library call so that "fresh" really means first use inside the threads
   std::vector<std::vector<Call>> prog(T);
   const int pool = mode ? NKIND : NTABLE;
-  const int hot = (int)r.below(pool);
+  int hot = (int)r.below(pool);
+  if (getenv("VERIF_C12_HOT")) hot = atoi(getenv("VERIF_C12_HOT")) % pool;  // debugging aid: force the kind every thread starts with
   for (int t = 0; t < T; ++t)
     for (int c = 0; c < ncalls; ++c) {
       int kind = (c == 0 && t < 2) || r.below(3) == 0 ? hot : (int)r.below(pool);
@@ -279,10 +305,11 @@ int main(int argc, char** argv) {
   S.qntt = q120_new_ntt_bb_precomp(S.n);
   S.qbbb = q120_new_vec_mat1col_product_bbb_precomp();
   S.qbaa = q120_new_vec_mat1col_product_baa_precomp();
+  S.shared_dft = (double*)aligned_alloc(64, ((size_t)T * 2 * S.n * 8 + 63) / 64 * 64 + 64);
   S.qbbc = q120_new_vec_mat1col_product_bbc_precomp();
   S.r4fc = new_reim4_from_cplx_precomp(S.m < 4 ? 4 : S.m);
   if (mode) {  // documented warm-up: one call per dimension of every *_simple function
-    for (int kd = NTABLE; kd < NKIND; ++kd) run_call(kd, 12345 + kd);
+    for (int kd = NTABLE; kd < NKIND; ++kd) { run_call(kd, 12345 + kd); run_call(kd, (12345 + kd) ^ 512); }  // both dimensions of the fft front ends
   }
   const uint64_t hp = hash_obj(S.ppol, bytes_of_svp_ppol(S.fft64)), hm = hash_obj(S.pmat, bytes_of_vmp_pmat(S.fft64, S.nrows, S.ncols));
   const uint64_t htab = hash_obj(S.rfft->powomegas, 2 * S.m * 8) ^ hash_obj(S.rifft->powomegas, 2 * S.m * 8);
@@ -291,7 +318,7 @@ int main(int argc, char** argv) {
   std::vector<pthread_t> th(T);
   std::vector<ThreadArg> args(T);
   for (int t = 0; t < T; ++t) {
-    args[t] = {&prog[t], &bar};
+    args[t] = {&prog[t], &bar, t};
     pthread_create(&th[t], nullptr, thread_main, &args[t]);
   }
   for (int t = 0; t < T; ++t) pthread_join(th[t], nullptr);
@@ -303,6 +330,7 @@ int main(int argc, char** argv) {
   std::map<int, int> users;
   for (int t = 0; t < T; ++t) {
     std::map<int, bool> seen;
+    g_tid = t;  // the sequential re-execution uses the same slice of the shared vector as thread t did
     for (auto& c : prog[t]) {
       std::vector<uint8_t> seq = run_call(c.kind, c.dseed);
       if (seq != c.out) {
